@@ -35,25 +35,30 @@ CLAIMED.update({
    text="Deductive proof of the sequential functions at-least-once delivery rests on: PublishMessage.Execute stores exactly one message and fans it out to every live subscription of the topic "
         "(one delivery per subscription whose filter accepts it, none otherwise; loop invariant over the subscription list, unbounded); deliverToSubscription creates exactly one open, unexpired, immediately "
         "due delivery for (message, subscription); the pull candidate query returns every open, unexpired, due (and, when ordered, unblocked) delivery of the subscription when it returns fewer than MaxMessages; "
-        "PruneCompletedDeliveries never removes an open delivery. Together: an unacknowledged, unexpired delivery stays selectable by every later pull.",
-   note="Whole-history/liveness part (a pull eventually happens, streaming pull loops, applyResults re-leasing) is not under contract; concurrency between transactions is not explored (the SQL engine's isolation is assumed: one Execute = one atomic step). "+TRUST,
+        "applyResults hands a candidate out without ever completing or removing it (it stays open with a later lease); PruneCompletedDeliveries never removes an open delivery; the pull action's "
+        "single-transaction entry point (verifySub -> query -> applyResults, in a retry loop) is proved to establish each step's precondition from the previous step's postcondition.",
+   note="Whole-history/liveness part (a pull eventually happens, streaming pull loops) is not under contract; the multi-transaction wrapper ExecuteClient is a trusted summary; concurrency between transactions is not explored (the SQL engine's isolation is assumed: one Execute = one atomic step). "+TRUST,
    design="4/C01"),
  "C02": dict(
    text="Deductive proof that the pull candidate query (queryAndLockDeliveriesOnce) returns only open, unexpired, due deliveries of exactly the pulled subscription, at most MaxMessages of them, pairwise distinct, "
-        "with the message row of each loaded verbatim (payload, attributes, order key, id = the stored message's); that publish/dead-letter create deliveries only for subscriptions of the message's topic / the configured dead-letter topic whose filter accepts the message; "
-        "and that seek-to-time/seek-to-snapshot change deliveries of the named subscription only (frame conditions over the deliveries table).",
+        "with the message row of each loaded verbatim; that applyResults copies exactly that message's id, payload, attributes, ordering key and publish time into each result, reports attempt old+1, never repeats a delivery in one response and returns at most MaxMessages; "
+        "that publish/dead-letter create deliveries only for subscriptions of the message's topic / the configured dead-letter topic whose filter accepts the message; "
+        "and that ack, nack, seek-to-time, seek-to-snapshot and applyResults change deliveries of the addressed subscription / the listed ids only (frame conditions over the deliveries table).",
    note="entDeliveryToGrpc (JSON payload re-encoding) and the Pull/StreamingPull loops are not under contract; 'the same JSON value' across the database JSON codec is assumed. Isolation between concurrent transactions assumed. "+TRUST,
    design="4/C02"),
  "C03": dict(
    text="Deductive proof of AckDeliveries.Execute: exactly the listed deliveries that are still open are completed (completed_at set to one instant read from the clock), every other delivery row and every other column is unchanged "
-        "(whole-table postcondition with frame), an already completed delivery is never reopened, and unknown ids are ignored.",
-   note="The gRPC adaptation of ack ids (streamWrapper.adaptIn, Acknowledge parsing) is covered only for no-panic (C16); 'never delivered again' additionally relies on the pull query contract of C02 (completed deliveries are never candidates). "+TRUST,
+        "(whole-table postcondition with frame), an already completed delivery is never reopened, and unknown ids are ignored; of streamWrapper.adaptIn: every ack id (and every modify-deadline id) of a streaming request - first request or not - is "
+        "converted in order into the stream request, with the largest requested deadline; and of parse.UUIDsFromStrings (all ids converted, one bad id fails the list).",
+   note="The unary Acknowledge handler is covered for no-panic (C16) only; 'never delivered again' additionally relies on the pull query contract of C02 (completed deliveries are never candidates). The streamer that consumes the stream request (C11) is not under contract. "+TRUST,
    design="4/C03"),
  "C04": dict(
    text="Deductive proof of NextDelayFor with machine-integer overflow checks on: the nominal delay is exactly trunc(min(maxBackoff, minBackoff x 1.1^n)) with the documented defaults, jitter is in [0, 1 s) and absent for delays <= 0.5 s "
-        "(float64 as reals, math.Pow axiomatised as real power); and of DelayDeliveries.Execute: a positive delay can only move attempt_at later, zero/negative sets it to now, only the listed open deliveries of the subscription change. "
+        "(float64 as reals, math.Pow axiomatised); of applyResults: a delivery handed out as attempt old+1 gets attempts = old+1 and attempt_at = now + that back-off for old+1 (+ jitter < 1 s), stays open, nothing else about it changes, and the "
+        "reported attempt number is old+1; of NackDeliveries.Execute: every listed outstanding delivery is rescheduled by the back-off for its attempt count (or dead-lettered when its attempts are used up), nothing else changes; "
+        "of DelayDeliveries.Execute: a positive delay can only move attempt_at later, zero/negative sets it to now; of adaptIn: a streaming modify-deadline applies the largest requested deadline to exactly the listed ids. "
         "The pull query contract (C02) gives 'not handed out before attempt_at'.",
-   note="applyResults (attempt counter bump, new lease), NackDeliveries and exclusivity between concurrent pullers (row locks, SKIP LOCKED) are not under contract: schedules are outside this technique. Retry policies are bounded by 100 days (policy_domain precondition) so that Duration arithmetic cannot overflow. "+TRUST,
+   note="Exclusivity between concurrent pullers (row locks, SKIP LOCKED) is outside this technique: schedules are not explored. Retry policies are bounded by 100 days (policy_domain precondition) so that Duration arithmetic cannot overflow. "+TRUST,
    design="4/C04"),
  "C05": dict(
    text="Deductive proof that deliverToSubscription, for an ordered subscription and a keyed message, links the new delivery behind the latest unexpired delivery of the same subscription whose message has the same ordering key "
@@ -62,18 +67,22 @@ CLAIMED.update({
    note="Ordering across redelivery after nack and the streaming flow-control path are not under contract. Unkeyed messages and unordered subscriptions are unconstrained by design. "+TRUST,
    design="4/C05"),
  "C06": dict(
-   text="Deductive proof of the dead-letter routine deadLetterDelivery: the delivery is completed on the source subscription, exactly one delivery of the same message is created on every live subscription of the configured dead-letter topic "
-        "(via the deliverToSubscription contract), nothing else changes, and a wake-up is requested for the receiving subscriptions.",
-   note="The trigger (attempts >= max_delivery_attempts in the DeadLetterDeliveries sweep / pull path) is not under contract yet. "+TRUST,
+   text="Deductive proof of the dead-letter routine deadLetterDelivery (the delivery is completed on the source subscription, exactly one delivery of the same message is created on every live subscription of the configured dead-letter topic "
+        "whose filter accepts it, nothing else changes, the receivers are woken on commit) and of its three triggers: the background sweep DeadLetterDeliveries.Execute retires exactly deliveries that are open, unexpired, due, on a live subscription with a full "
+        "dead-letter configuration and with attempts >= max_delivery_attempts, and misses none below its batch limit; NackDeliveries.Execute and applyResults call the routine only for a still-open delivery whose attempts are used up on such a subscription "
+        "(the routine's precondition is an obligation at each call site).",
+   note="History induction ('after exactly N attempts') is not machine-checked: the contracts give the per-step rule. "+TRUST,
    design="4/C06"),
  "C08": dict(
-   text="Deductive proof that CreateSubscription.Execute stores a filter only if it parses (filter_validated: the stored text is accepted by the parser intrinsic), and that publish evaluates exactly the stored filter through the C07 evaluator contracts.",
-   note="The filter printer (AsFilter / formatAttrName) and the parser itself (participle, reflection-driven) are outside the verifier's reach: print/parse round-trip is not decided. UpdateSubscription's filter path is covered for no-panic only. "+TRUST,
+   text="Deductive proof that CreateSubscription.Execute stores a filter only if it parses (filter_validated), that publish evaluates exactly the stored filter through the C07 evaluator contracts, and that the printer's formatAttrName prints an "
+        "attribute name verbatim only if it lexes as one identifier (non-empty, every rune an identifier rune) and as a quoted string otherwise (string-range loop with an inductive invariant over rune positions). The last obligation refuted the pinned code for the empty name (replayed, fixed).",
+   note="The rest of the printer (AsFilter over the AST) and the parser itself (participle, reflection-driven) are outside the verifier's reach: print/parse round-trip as a whole is not decided. UTF-8 decoding facts used by range-over-string are axioms. "+TRUST,
    design="4/C08"),
  "C09": dict(
-   text="Deductive proof, for 25 transaction bodies and helpers in actions/, that a failure reported by the storage layer on any statement is never swallowed: every Execute returns a non-nil error whenever a statement failed (ghost flag dbfailed), "
-        "and the commit hooks they register (notify, timers) act only after a successful commit (hook obligations: the hook is symbolically run in commit-failure and commit-success mode).",
-   note="ent.Client.DoTx / DoCtxTxRetry themselves (rollback on error, retry classification) are modelled as a trusted transaction idiom, not verified. Crash points inside the SQL engine are its responsibility. "+TRUST,
+   text="Deductive proof, for 30 transaction bodies and helpers in actions/, that a failure reported by the storage layer on any statement is never swallowed (ghost flag dbfailed => non-nil error), that the commit hooks they register act only after a successful commit "
+        "(hook obligations: the hook is symbolically run in commit-failure and commit-success mode), and of the transaction runner ent.Client.DoTx itself: it commits only after the wrapped function returned nil, rolls back otherwise, and reports success only when the commit went through "
+        "(ghost record of Commit/Rollback calls; deferred closure and named result modelled).",
+   note="DoCtxTxRetry's retry loop and the use of DoTx at call sites are a modelled idiom (rollback restores the tables), not re-verified per call; Commit/Rollback/BeginTx are intrinsics (database/sql is trusted). Crash points inside the SQL engine are its responsibility. "+TRUST,
    design="4/C09"),
  "C12": dict(
    text="Deductive proof of the resource lifecycle functions: CreateTopic/CreateSubscription refuse a live duplicate name and otherwise create exactly one live row; DeleteTopic/DeleteSubscription soft-delete exactly the named live row; findTopic returns the live row of that name; "
@@ -88,8 +97,9 @@ CLAIMED.update({
    note="Snapshot expiry and UpdateSnapshot are covered for no-panic only. "+TRUST,
    design="4/C13"),
  "C14": dict(
-   text="Deductive proof that subscription expiry follows the stored ttl: CreateSubscription stamps expires_at = now + ttl, deliverToSubscription computes delivery expiry from the subscription's message ttl, and DeleteExpiredSubscriptions soft-deletes exactly the live subscriptions whose expires_at has passed (and none other), waking their waiters.",
-   note="The activity refresh of expires_at in the pull path (execute) is not under contract. "+TRUST,
+   text="Deductive proof that subscription expiry follows the stored ttl: CreateSubscription stamps expires_at = now + ttl, deliverToSubscription computes delivery expiry from the subscription's message ttl, applyResults (every successful pull) pushes expires_at to now + ttl, "
+        "and DeleteExpiredSubscriptions soft-deletes exactly the live subscriptions whose expires_at has passed (and none other), waking their waiters.",
+   note="The extra refresh in the pull action's first transaction (which matters only when a pull is cancelled before it returns) is not covered by a postcondition. "+TRUST,
    design="4/C14"),
  "C15": dict(
    text="Deductive proof of the six background prune jobs and the expiry sweep: each removes only rows its retention rule allows (completed/expired deliveries older than the cut-off, messages without deliveries, soft-deleted subscriptions/topics older than the cut-off and without dependants), "
@@ -97,15 +107,19 @@ CLAIMED.update({
    note="Scheduling of the jobs (cron service) and their mutual interleaving are not explored; each job is one atomic transaction by assumption. "+TRUST,
    design="4/C15"),
  "C16": dict(
-   text="Deductive no-panic proof of 22 Publisher/Subscriber gRPC handlers and 3 entity mappers for every request message protobuf decoding can produce (any field nil, empty, negative) and every database content satisfying the stated table invariants: "
-        "nil dereference, index, slice, map-write, type assertion, explicit panic() in constructors reached from the handler, division - each is a named obligation. This refuted the pinned code at 11 requests (six fix commits, replayed).",
-   note="StreamingPull, the HTTP push path and the interceptor chain (grpc/faults.go, recovery) are not under contract. Dependencies are assumed panic-free on arguments satisfying their intrinsic preconditions. "+TRUST,
+   text="Deductive no-panic proof of 22 Publisher/Subscriber gRPC handlers, 3 entity mappers and streamWrapper.adaptIn for every request message protobuf decoding can produce (any field nil, empty, negative) and every database content satisfying the stated table invariants: "
+        "nil dereference, index, slice, map-write, type assertion, explicit panic() in constructors reached from the handler, division - each is a named obligation. This refuted the pinned code at 11 requests (six fix commits, replayed). "
+        "For the interceptor chain: the unary and stream fault-injection interceptors either reject a request before the wrapped handler runs or answer with exactly the handler's answer, so an injected fault never turns a request that was carried out into an error.",
+   note="StreamingPull's streamer, the HTTP push path and the assembly of the chain in grpc/server.go are not under contract. Dependencies are assumed panic-free on arguments satisfying their intrinsic preconditions. "+TRUST,
    design="4/C16"),
  "C17": dict(
-   text="Deductive proof that CreateSubscription.Execute / CreateTopic.Execute store exactly the configuration given (every configuration column of the created row equals the corresponding parameter; absent options are stored as absent) and that entTopicToGrpc returns the stored name and labels.",
-   note="Update masks (UpdateSubscription/UpdateTopic apply only the named paths), the subscription mapper's full field map and the interval SQL codec (sqltypes.Interval Value/Scan) are not under contract yet. "+TRUST,
+   text="Deductive proof that CreateSubscription.Execute / CreateTopic.Execute store exactly the configuration given; that UpdateSubscription / UpdateTopic change exactly the columns named by the update mask on exactly the named live row (loop over mask paths with per-column invariants on the "
+        "symbolic update builder) and that a listed path is applied even when it only clears optional configuration; that entTopicToGrpc returns the stored name and labels; and for the duration codec: Interval.Value stores exactly Go's duration text and Interval.Scan of that text gives back "
+        "the same duration (String/ParseDuration assumed inverse), rejects text that is neither format, and keeps the old value on failure.",
+   note="The subscription mapper's full field map and the PostgreSQL-text branch of the interval parser (known defects on negative / overflowing text, not repaired, outside the claim) are not under contract. "+TRUST,
    design="4/C17"),
 })
+CLAIMED["C10"]["text"] += (" W3: PublishAwaiter registers a fresh open one-shot channel for exactly that subscription and CancelPublishAwaiter removes exactly that registration (registry representation invariant preserved); in the pull action a waiter for the subscription is registered at every candidate look-up (precondition 'listening' of the query, an obligation in the verified single-transaction entry point).")
 CLAIMED["C10"]["text"] += (" W2: every state-changing action that can make a delivery available (publish, dead-letter, delay to now, seek, prune-expired, expiry, create/delete subscription, ack on ordered subscriptions) requests a wake-up of the affected subscription "
         "and does so through a commit hook that fires only after a successful commit (hook obligations).")
 CLAIMED["C07"]["text"] += " deliverToSubscription is proved to use exactly that evaluator on the stored filter and the message's attributes."
